@@ -146,6 +146,26 @@ func c03Case(c *core.Ctx, idx int) {
 			return
 		}
 	}
+	// version-specific syntax must be rejected by the versions that do not have it
+	canon := gen.Render(toks, gen.LayCanon, r.Split("lay2"), nil)
+	if fam == 7 && pc.root.HasFlag(gen.FPhp7Only) {
+		v5 := gen.Versions5[r.Intn(len(gen.Versions5))]
+		pr := obs.Parse(canon, v5, true)
+		c.Add("php7_only_programs_tried_under_5x", 1)
+		if pr.Panic == nil && len(pr.Errors) == 0 {
+			c.Violation("version-syntax|php7-only-accepted-under-5x", "a program using PHP 7-only syntax was accepted without any error under "+v5, core.W(canon, v5))
+			return
+		}
+	}
+	if pc.root.HasFlag(gen.FFlex73) {
+		vOld := r.Pick("7.0", "7.1", "7.2", "5.6", "5.3")
+		pr := obs.Parse(canon, vOld, true)
+		c.Add("flexible_heredoc_programs_tried_before_7.3", 1)
+		if pr.Panic == nil && len(pr.Errors) == 0 {
+			c.Violation("version-syntax|flexible-heredoc-accepted-before-7.3", "a program with an indented heredoc terminator was accepted without any error under "+vOld, core.W(canon, vOld))
+			return
+		}
+	}
 	c.Cover("family", fmt.Sprint(fam))
 	c.Cover("version", pc.ver)
 	c.NonTrivial([]byte(want), []byte(pc.ver))
@@ -175,17 +195,18 @@ func init() {
 		RunWitness: func(c *core.Ctx, w core.Witness) {
 			pr := obs.Parse(w.Src, w.Ver, true)
 			ww := core.W(w.Src, w.Ver)
+			tag := "|witness:" + w.Cfg["tag"]
 			if pr.Panic != nil {
 				c.Violation(pr.Panic.Sig, "panic: "+pr.Panic.Msg, ww)
 				return
 			}
 			if len(pr.Errors) > 0 {
-				c.Violation(fmt.Sprintf("accept|fam%d|%s|in:%s", obs.Fam(w.Ver), numStrip(pr.Errors[0].Msg), slotAtErr(pr, pr.Errors[0])), "valid program rejected: "+pr.Errors[0].String(), ww)
+				c.Violation(fmt.Sprintf("accept|fam%d|%s", obs.Fam(w.Ver), numStrip(pr.Errors[0].Msg))+tag, "valid program rejected: "+pr.Errors[0].String(), ww)
 				return
 			}
 			if want := w.Cfg["expect_structure"]; want != "" {
 				if got := obs.StructureCanon(pr.Root); got != want {
-					c.Violation(fmt.Sprintf("tree|fam%d|%s", obs.Fam(w.Ver), structSig(want, got)), "tree differs: "+obs.FirstDiff(want, got), ww)
+					c.Violation(fmt.Sprintf("tree|fam%d|%s", obs.Fam(w.Ver), structSig(want, got))+tag, "tree differs: "+obs.FirstDiff(want, got), ww)
 				}
 			}
 			c.NonTrivial(w.Src, []byte(w.Ver))
